@@ -472,7 +472,16 @@ def make_namespaces(oblig):
 
     def a_pad(x, width, mode="constant", **kw):
         import numpy as _n
-        pairs = _n.lib._arraypad_impl._as_pairs(width, len(shape_of(x)), as_index=True)
+        nd_ = len(shape_of(x))
+        if isinstance(width, (list, tuple)) and len(width) == nd_ and all(isinstance(p_, (list, tuple)) and len(p_) == 2 for p_ in width) \
+                and any(isinstance(e, cx.SInt) for p_ in width for e in p_):
+            # explicit (before, after) pairs with symbolic widths: NumPy requires them non-negative (obligation), the result grows by their sum
+            for lo, hi in width:
+                for e in (lo, hi):
+                    if isinstance(e, cx.SInt):
+                        oblig("numpy-accepts-pad(width >= 0)", dim_term(e) >= 0)
+            return SArr(tuple(d + (lo if isinstance(lo, cx.SInt) else int(lo)) + (hi if isinstance(hi, cx.SInt) else int(hi)) for d, (lo, hi) in zip(shape_of(x), width)), kind_of(x))
+        pairs = _n.lib._arraypad_impl._as_pairs(width, nd_, as_index=True)
         return SArr(tuple(d + int(lo) + int(hi) for d, (lo, hi) in zip(shape_of(x), pairs)), kind_of(x))
 
     def a_rot90(x, k=1, axes=(0, 1)):
@@ -671,6 +680,24 @@ def make_namespaces(oblig):
             raise shadow.NotModelled("cross of non-3-vectors")
         return SArr(tuple(bshape(sa[:-1], sb[:-1])) + (3,), promote(kind_of(a), kind_of(b)))
 
+    def a_diagonal(x, offset=0, axis1=0, axis2=1):
+        sh = list(shape_of(x))
+        nd = len(sh)
+        a1, a2 = axis1 % nd, axis2 % nd
+        if a1 == a2:
+            raise ValueError("axis1 and axis2 cannot be the same")
+        d1, d2 = sh[a1], sh[a2]
+        k = int(offset)
+        ln = _smax0(_smin(d1, d2 - k)) if k >= 0 else _smax0(_smin(d1 + k, d2))
+        return SArr(tuple(d for i, d in enumerate(sh) if i not in (a1, a2)) + (ln,), kind_of(x))
+
+    def a_make_diagonal(D, offset=0, axis1=0, axis2=1):
+        # contract of autograd.numpy.numpy_wrapper.make_diagonal (autograd's own primitive, not NumPy): audited by VT-plain / the numeric rows
+        if not (offset == 0 and axis1 == -1 and axis2 == -2):
+            raise NotImplementedError("Currently make_diagonal only supports offset=0, axis1=-1, axis2=-2")
+        sh = shape_of(D)
+        return SArr(tuple(sh) + (sh[-1],), kind_of(D))
+
     def a_concatenate(arrs, axis=0):
         if all(not isinstance(v, SArr) for v in arrs):      # vectors of sizes (some symbolic): what the rules build reshape targets from
             out = ShapeVec()
@@ -686,7 +713,7 @@ def make_namespaces(oblig):
                 r = _smin(r, e) if (isinstance(r, cx.SInt) or isinstance(e, cx.SInt)) else min(r, e)
             return r
         return a_sum(x, *a, **k)
-    impls.update(diag=a_diag, eye=a_eye, trace=a_trace, full=a_full, linspace=a_linspace, kron=a_kron, diff=a_diff, cross=a_cross, concatenate=a_concatenate, min=a_min)
+    impls.update(diag=a_diag, eye=a_eye, trace=a_trace, full=a_full, linspace=a_linspace, kron=a_kron, diff=a_diff, cross=a_cross, concatenate=a_concatenate, min=a_min, diagonal=a_diagonal, make_diagonal=a_make_diagonal)
     import numpy as _rnp
 
     def _abstract(v):
